@@ -156,10 +156,12 @@ fn stall_dir(ds: &DirState) -> Option<Stall> {
         let ev = poll_fd(ds.rfd.get(), libc::POLLIN | POLLRDHUP);
         if ev & (libc::POLLIN | POLLRDHUP | libc::POLLHUP | libc::POLLERR) != 0 && ds.in_recv.get().is_some() {
             return Some(Stall::Violation(Fail {
-                sig: format!("C14/stream/stall-readable/{}/r={rk}", ds.tag),
+                // on the polling driver every receive API is hit alike (the readiness registration
+                // is armed and ready in the kernel, the driver never hands it out): one class
+                sig: if ds.tag.ends_with("/poll") { format!("C14/stream/stall-readable/{}", ds.tag) } else { format!("C14/stream/stall-readable/{}/r={rk}", ds.tag) },
                 what: format!(
-                    "direction {}: receiver blocked in {rk} at offset {} of {} made no progress over the idle bound although poll() reports the socket readable (revents {ev:#x}); sender accepted {}, done={}",
-                    ds.name, ds.recvd.get(), ds.total, ds.sent.get(), sender_finished
+                    "direction {}: receiver (fd {}) blocked in {rk} at offset {} of {} made no progress over the idle bound although poll() reports the socket readable (revents {ev:#x}); sender accepted {}, done={}",
+                    ds.name, ds.rfd.get(), ds.recvd.get(), ds.total, ds.sent.get(), sender_finished
                 ),
             }));
         }
